@@ -199,6 +199,8 @@ def STRUCT_LOOPS(header):
         return ("invariant __zi <= field_vars@.len(), __zi + __za@.len() == args0.len(), __za@ == args0.subrange(__zi as int, args0.len() as int),\n"
                 "  cols@ == base + sub_field_cols(field_vars@, args0, __zi as int),\n"
                 "decreases __za@.len(),")
+    if "__ro0.len()" in header:
+        return "invariant true,\ndecreases __ro0@.len(),"      # a filtering step: nothing is known about what it keeps (and nothing needs to be, if it is harmless)
     return None
 
 
@@ -506,7 +508,7 @@ UNIT = Unit(
                "  __rs@ == res0.subrange(new_arms@.len() as int, res0.len() as int), __as@ == arms0.subrange(new_arms@.len() as int, arms0.len() as int),\n"
                "  forall|c: int| 0 <= c < new_arms@.len() ==> (#[trigger] new_arms@[c]).lhs == arms0[c].lhs && new_arms@[c].body == replace_tail(res0[c], arms0[c].body),\n"
                "decreases __rs@.len(),")),
-        Fn(file=CM, name="compile_struct_case", rename="struct_case_body", ret="r", attrs="#[verifier::loop_isolation(false)]\n#[verifier::rlimit(60)]", rules=["attrs", ("strip", "tast::")],
+        Fn(file=CM, name="compile_struct_case", rename="struct_case_body", ret="r", attrs="#[verifier::loop_isolation(false)]\n#[verifier::rlimit(60)]", rules=["attrs", ("strip", "tast::"), "vec_retain"],
            cut_from="let hole = core::eunit();",
            sig="fn struct_case_body(genv: &GlobalTypeEnv, gensym: &Gensym, diagnostics: &mut Diagnostics, rows: Vec<Row>, bvar: &Variable, ty: &Ty, "
                "field_vars: Vec<Variable>, constructor: Constructor, match_range: Option<TextRange>) -> core::Expr",
@@ -515,9 +517,11 @@ UNIT = Unit(
                ("for (field_index, var) in field_vars.iter().enumerate() {", "let mut __ff: usize = 0; while __ff < field_vars.len() { let field_index = __ff; let var = &field_vars[field_index]; __ff += 1;", "*"),
                ("for row in rows {", "let ghost rows0 = rows@; let mut __rv = rows; while __rv.len() > 0 { let row = __rv.remove(0);"),
                ("for Column { var, pat } in row.columns {", "let ghost cols0 = row.columns@; let mut __cv = row.columns; while __cv.len() > 0 { let Column { var, pat } = __cv.remove(0);"),
-               ("for (var, arg_pat) in field_vars.iter().zip(args.into_iter()) {",
-                "let ghost args0 = args@; let ghost base = cols@; let mut __za = args; let mut __zi: usize = 0; "
-                "while __zi < field_vars.len() && __za.len() > 0 { let var = &field_vars[__zi]; let arg_pat = __za.remove(0); __zi += 1;"),
+               # a filtering step in front of the zip is followed: `let N = V.into_iter().filter(|x| P);` is `V.retain(|x| P)` renamed (rule vec_retain)
+               (re.compile(r"let (\w+) = (\w+)\s*\.into_iter\(\)\s*\.filter\(\|(\w+)\| ([^;]*?)\);", re.S), r"let mut \1 = \2; \1.retain(|\3| \4);", "*"),
+               (re.compile(r"for \(var, arg_pat\) in field_vars\.iter\(\)\.zip\((\w+)(?:\.into_iter\(\))?\) \{"),
+                r"let ghost args0 = \1@; let ghost base = cols@; let mut __za = \1; let mut __zi: usize = 0; "
+                r"while __zi < field_vars.len() && __za.len() > 0 { let var = &field_vars[__zi]; let arg_pat = __za.remove(0); __zi += 1;", 1),
            ],
            rewrites=[("let mut new_rows = vec![];", "let mut new_rows: Vec<Row> = Vec::new();"), ("let mut cols = vec![];", "let mut cols: Vec<Column> = Vec::new();"),
                      ("let hole = core::eunit();", "let hole = core_eunit(); let ghost hole_g = hole;"), ("if var == bvar.name {", "if string_eq(&var, &bvar.name) {"),
